@@ -461,6 +461,12 @@ func (run *CheckRun) Report(e *Engine, writeBaseline, verbose bool) int {
 		}
 		var missing []string
 		for n := range base {
+			// only clause-level obligations (postconditions, lemma assertions, loop invariants) are
+			// structural; safety / frame / precondition names exist only for the paths explored
+			// (solver-based pruning may or may not cut an infeasible path) and are not required to recur
+			if strings.Contains(n, "#safe:") || strings.Contains(n, "#frame") || strings.Contains(n, "#pre:") || strings.HasSuffix(n, ":frame") {
+				continue
+			}
 			if !have[n] && !(run.Tier != "thorough" && strings.Contains(n, "#slow_")) {
 				missing = append(missing, n)
 			}
